@@ -355,7 +355,8 @@ Variables (g : list (list nat * expr)) (funs : list (list nat * expr)) (named : 
 Notation PEG := (peg g ignored t rx).
 Notation EXEC := (exec true g funs named ignored t rx).
 
-Definition scope_of (sc : list nat) (E : env) := forall x v, lookup x E = Some v -> In x sc.
+(* the static scope is exactly the domain of the lexical environment *)
+Definition scope_of (sc : list nat) (E : env) := forall x, In x sc <-> exists v, lookup x E = Some v.
 
 Definition bounds_ok (mn mx : bound) : Prop :=
   match mn, mx with
@@ -378,7 +379,7 @@ Fixpoint wf (sc : list nat) (e : expr) : Prop :=
   | Discard a b _ | Apply a b _ | Where a b | Sep a b _ _ _ _ => wf sc a /\ wf sc b
   | Opt e | Expect e | ExpectNot e => wf sc e
   | Rep e mn mx => wf sc e
-  | Let x a b => ~ In x sc /\ wf sc a /\ wf (x :: sc) b
+  | Let x sh a b => (sh = true <-> In x sc) /\ wf sc a /\ wf (x :: sc) b
   | Class _ ms =>
       (fix go (sc : list nat) (ms : list (option nat * bool * expr)) : Prop :=
          match ms with
@@ -401,18 +402,31 @@ Hypothesis Hign : forall r, ignored = Some r -> exists es, nth_error g r = Some 
 Lemma sub_nil L : sub [] L.
 Proof. intros x v H. discriminate. Qed.
 Lemma scope_nil : scope_of [] [].
-Proof. intros x v H. discriminate. Qed.
+Proof. intros x. split; [intros []|intros (v & H); discriminate]. Qed.
+Lemma scope_in sc E x v : scope_of sc E -> lookup x E = Some v -> In x sc.
+Proof. intros H Hx. apply H. eauto. Qed.
 
 Lemma sub_cons E L x v : sub E L -> sub ((x, v) :: E) ((x, v) :: L).
 Proof. intros H y w. cbn. destruct (Nat.eqb y x); auto. Qed.
 Lemma sub_drop E L x v sc : scope_of sc E -> ~ In x sc -> sub ((x, v) :: E) L -> sub E L.
 Proof.
   intros Hsc Hx H y w Hy. apply H. cbn. destruct (Nat.eqb_spec y x) as [->|]; auto.
-  exfalso. apply Hx. eapply Hsc. exact Hy.
+  exfalso. apply Hx. eapply scope_in; eauto.
 Qed.
 Lemma scope_cons sc E x v : scope_of sc E -> scope_of (x :: sc) ((x, v) :: E).
 Proof.
-  intros H y w Hy. cbn in Hy. destruct (Nat.eqb_spec y x) as [->|]; [left; auto|right]. eapply H. exact Hy.
+  intros H y. cbn. destruct (Nat.eqb_spec y x) as [->|Hne].
+  - split; eauto.
+  - split.
+    + intros [Hq|Hq]; [congruence|]. apply H. exact Hq.
+    + intros Hq. right. apply H. exact Hq.
+Qed.
+(* restoring the outer binding of a shadowed name keeps the flat locals in
+   agreement with the lexical environment *)
+Lemma sub_restore E L x v old : lookup x E = Some old -> sub ((x, v) :: E) L -> sub E ((x, old) :: L).
+Proof.
+  intros Hx H y w Hy. cbn. destruct (Nat.eqb_spec y x) as [->|Hne]; [congruence|].
+  apply H. cbn. destruct (Nat.eqb_spec y x); [contradiction|auto].
 Qed.
 
 Definition IHT (n : nat) := forall e sc E s, wf sc e -> scope_of sc E -> sub E (locals s) ->
@@ -457,7 +471,29 @@ Definition after_ok n IHn := after_ok_gen n IHn ignored eq_refl.
 Fixpoint members_always (ms : list (option nat * bool * expr)) : bool :=
   match ms with [] => true | (_, _, e) :: l' => always e && members_always l' end.
 
-Lemma class_ok n (IHn : IHT n) : forall cls start ms sc E s acc,
+Lemma lookup_all_app xs ys L : lookup_all (xs ++ ys) L =
+  match lookup_all xs L, lookup_all ys L with Some a, Some b => Some (a ++ b) | _, _ => None end.
+Proof.
+  induction xs as [|x xs IH]; cbn; [destruct (lookup_all ys L); auto|].
+  rewrite IH. destruct (lookup x L), (lookup_all xs L), (lookup_all ys L); auto.
+Qed.
+Lemma lookup_all_rev E L fields acc : sub E L ->
+  Forall2 (fun x v => lookup x E = Some v) fields acc ->
+  lookup_all (rev fields) L = Some (rev acc).
+Proof.
+  intros HS H. induction H as [|x v fs vs Hx Hr IH]; [reflexivity|].
+  cbn [rev]. rewrite lookup_all_app, IH. cbn. rewrite (HS _ _ Hx). reflexivity.
+Qed.
+Lemma Forall2_weaken_env x w sc E fields acc :
+  scope_of sc E -> ~ In x sc ->
+  Forall2 (fun y v => lookup y E = Some v) fields acc ->
+  Forall2 (fun y v => lookup y ((x, w) :: E) = Some v) fields acc.
+Proof.
+  intros Hsc Hx H. induction H as [|y v fs vs Hy Hr IH]; constructor; auto.
+  cbn. destruct (Nat.eqb_spec y x) as [->|]; auto. exfalso. apply Hx. eapply scope_in; eauto.
+Qed.
+
+Lemma class_ok n (IHn : IHT n) : forall cls start ms sc E s acc fields,
   (fix go (sc : list nat) (ms : list (option nat * bool * expr)) : Prop :=
      match ms with
      | [] => True
@@ -467,8 +503,9 @@ Lemma class_ok n (IHn : IHT n) : forall cls start ms sc E s acc,
                     | None => go sc ms' end
      end) sc ms ->
   scope_of sc E -> sub E (locals s) ->
+  Forall2 (fun x v => lookup x E = Some v) fields acc ->
   forall E0 sc0, scope_of sc0 E0 -> (forall L, sub E L -> sub E0 L) ->
-  match class_spec (PEG n) cls start ms E (pos s) acc, class_loop (EXEC n) cls start ms s acc with
+  match class_spec (PEG n) cls start ms E (pos s) acc, class_loop (EXEC n) cls start ms s fields with
   | Fuel, OutOfFuel => True
   | Raise, _ => True
   | Match v p', Done s' => (status s = true \/ ms <> [] -> status s' = true) /\ result s' = v /\ pos s' = p'
@@ -476,9 +513,10 @@ Lemma class_ok n (IHn : IHT n) : forall cls start ms sc E s acc,
   | Fails, Done s' => status s' = false /\ members_always ms = false /\ sub E0 (locals s')
   | _, _ => False end.
 Proof.
-  induction ms as [|[[name isf] e] ms IHms]; intros sc E s acc Hwf Hsc HS E0 sc0 Hsc0 Hdown;
+  induction ms as [|[[name isf] e] ms IHms]; intros sc E s acc fields Hwf Hsc HS Hf E0 sc0 Hsc0 Hdown;
     cbn [class_spec class_loop].
-  - cbn. repeat split; auto. intros [H|H]; [exact H|congruence].
+  - rewrite (lookup_all_rev E (locals s) fields acc HS Hf). cbn. repeat split; auto.
+    intros [H|H]; [exact H|congruence].
   - destruct Hwf as (Hwe & Hrest).
     pose proof (IHn e sc E s Hwe Hsc HS) as H. unfold agree in H.
     destruct (PEG n E e (pos s)) as [| | |v p'], (EXEC n e s) as [s1| |]; try contradiction; cbn [bind]; auto.
@@ -486,9 +524,13 @@ Proof.
     + destruct H as (A & B & C & D). rewrite A, orb_true_r. subst v p'. cbn [members_always].
       destruct name as [x|].
       * destruct Hrest as (Hx & Hrest).
-        specialize (IHms (x :: sc) ((x, result s1) :: E) (bindl s1 x (result s1))
-                         (if isf then result s1 :: acc else acc) Hrest
-                         (scope_cons _ _ _ _ Hsc) (sub_cons _ _ _ _ D) E0 sc0 Hsc0).
+        assert (Hf' : Forall2 (fun y v => lookup y ((x, result s1) :: E) = Some v)
+                        (match field_name (Some x) isf with Some x0 => x0 :: fields | None => fields end)
+                        (match field_name (Some x) isf with Some _ => result s1 :: acc | None => acc end)).
+        { pose proof (Forall2_weaken_env x (result s1) sc E fields acc Hsc Hx Hf) as Hw.
+          cbn [field_name]. destruct isf; [constructor; auto; cbn; now rewrite Nat.eqb_refl | exact Hw]. }
+        specialize (IHms (x :: sc) ((x, result s1) :: E) (bindl s1 x (result s1)) _ _ Hrest
+                         (scope_cons _ _ _ _ Hsc) (sub_cons _ _ _ _ D) Hf' E0 sc0 Hsc0).
         cbn [pos bindl] in IHms.
         match type of IHms with (?X -> _) => assert (HX : X) end.
         { intros L HL. apply Hdown. eapply sub_drop; eauto. }
@@ -497,7 +539,8 @@ Proof.
                  (class_spec (PEG n) cls start ms ((x, result s1) :: E) (pos s1) _) as [| | |v p']; auto.
         all: try (destruct IHms as (I1 & I2 & I3 & I4); repeat split; auto; intros _; apply I1; left; exact A).
         all: try (destruct IHms as (I1 & I2 & I3); repeat split; auto; rewrite I2; apply andb_false_r).
-      * specialize (IHms sc E s1 (if isf then result s1 :: acc else acc) Hrest Hsc D E0 sc0 Hsc0 Hdown).
+      * cbn [field_name].
+        specialize (IHms sc E s1 acc fields Hrest Hsc D Hf E0 sc0 Hsc0 Hdown).
         destruct (class_loop (EXEC n) cls start ms s1 _),
                  (class_spec (PEG n) cls start ms E (pos s1) _) as [| | |v p']; auto.
         all: try (destruct IHms as (I1 & I2 & I3 & I4); repeat split; auto; intros _; apply I1; left; exact A).
@@ -535,7 +578,7 @@ Proof.
   induction n as [|n IHn]; intros e sc E s Hwf Hsc HS; [exact I|].
   pose proof (fun e0 s0 HW HL => IHn e0 sc E s0 HW Hsc HL) as IHl.
   destruct e as [v sk|id sk|b sk|r|es|a b dl|es|e|e mn mx|e|e|es|es|k| |e sp discard trailer ae rs
-                 |py|a b al|e pred|x a body|cls ms|pre opd post inf|x|callee args]; cbn [peg exec].
+                 |py|a b al|e pred|x sh a body|cls ms|pre opd post inf|x|callee args]; cbn [peg exec].
   - (* Str *) destruct v as [|c v]; [cbn; auto|].
     destruct (prefix_at (c :: v) t (pos s)); [apply after_ok; auto | cbn; auto].
   - (* Rx *) destruct (rx id (pos s)); [apply after_ok; auto | cbn; auto].
@@ -718,13 +761,27 @@ Proof.
       pose proof (IHn body (x :: sc) ((x, result s1) :: E) (bindl s1 x (result s1)) Hwb
                       (scope_cons _ _ _ _ Hsc) (sub_cons _ _ _ _ H4)) as H.
       cbn [pos bindl] in H. unfold agree in H.
-      destruct (EXEC n body (bindl s1 x (result s1))) as [s2| |],
-               (PEG n ((x, result s1) :: E) body (pos s1)) as [| | |v p']; auto.
-      * destruct H as (A & B & C & D). repeat split; auto.
+      (* what the epilogue of the let does to the locals *)
+      assert (Hrest : forall s2, sub ((x, result s1) :: E) (locals s2) ->
+                exists s3, (if sh then match lookup x (locals s1) with
+                                       | Some old => Done (bindl s2 x old) | None => Stuck 31 end
+                            else Done s2) = Done s3
+                           /\ status s3 = status s2 /\ result s3 = result s2 /\ pos s3 = pos s2
+                           /\ sub E (locals s3)).
+      { intros s2 Hs2. destruct sh.
+        - destruct (proj1 (Hsc x) (proj1 Hx eq_refl)) as (old & Hold).
+          rewrite (H4 _ _ Hold). exists (bindl s2 x old). repeat split; auto.
+          cbn [locals bindl]. eapply sub_restore; eauto.
+        - exists s2. repeat split; auto. eapply sub_drop; eauto.
+          intros Hin. apply Hx in Hin. discriminate. }
+      destruct (PEG n ((x, result s1) :: E) body (pos s1)) as [| | |v p'],
+               (EXEC n body (bindl s1 x (result s1))) as [s2| |]; cbn [bind]; try contradiction; try exact I.
+      * (* Fails *) destruct H as (A & B & C & D). destruct (Hrest s2 D) as (s3 & E3 & R1 & R2 & R3 & R4). rewrite E3.
+        rewrite R1, R3. repeat split; auto.
         -- rewrite B, andb_false_r. auto.
         -- rewrite B, andb_false_r. cbn. discriminate.
-        -- eapply sub_drop; eauto.
-      * destruct H as (A & B & C & D). repeat split; auto. eapply sub_drop; eauto.
+      * (* Match *) destruct H as (A & B & C & D). destruct (Hrest s2 D) as (s3 & E3 & R1 & R2 & R3 & R4). rewrite E3.
+        rewrite R1, R2, R3. repeat split; auto.
     + replace (always a || status s1) with false by (rewrite H1, H2; auto).
       repeat split; auto; rewrite H2; auto; cbn; discriminate.
   - (* Class *) cbn [wf] in Hwf.
@@ -732,7 +789,7 @@ Proof.
     assert (Hne : m0 :: ms0 <> []) by discriminate. set (ms := m0 :: ms0) in *.
     change (agree E (Class cls ms) (pos s) (class_spec (PEG n) cls (pos s) ms E (pos s) [])
                   (class_loop (EXEC n) cls (pos s) ms s [])).
-    pose proof (class_ok n IHn cls (pos s) ms sc E s [] Hwf Hsc HS E sc Hsc (fun L HL => HL)) as H.
+    pose proof (class_ok n IHn cls (pos s) ms sc E s [] [] Hwf Hsc HS (Forall2_nil _) E sc Hsc (fun L HL => HL)) as H.
     unfold agree.
     change (always (Class cls ms)) with (members_always ms).
     change (part (Class cls ms)) with (negb (members_always ms)).
